@@ -43,7 +43,7 @@ OBLIGATIONS = {"intersect": 100, "intersect:partial-left": 5,
                "voronoi:more-cells-than-points": 30,
                "voronoi:more-points-than-cells": 5,
                "voronoi:clustered-points": 10, "voronoi:grid-origin-not-0": 30,
-               "intersect:reused-object-other-set": 30}
+               "intersect:reused-object-other-set": 30, "intersect:split-grid": 50}
 
 
 def mods():
@@ -100,10 +100,12 @@ def judge_intersect(ctx, case, g, cat, cg, fine, coarse, cells, filled_cells,
     # the exact centres, far below the 1e-9 ambiguity margin.
     sure = Counter()
     amb = 0
+    mind = 1.0
     sides = set()
     for c in used:
         x, y = gf.centre(c)
         cc, dist = gc.locate(x, y)
+        mind = min(mind, float(dist))
         if dist < 1e-9:
             amb += 1
             continue
@@ -131,7 +133,8 @@ def judge_intersect(ctx, case, g, cat, cg, fine, coarse, cells, filled_cells,
     with warnings.catch_warnings():
         warnings.simplefilter("ignore")
         try:
-            area_grid, idxcells, weights = cat.intersect(cg, filled=use_filled)
+            fl = use_filled if case.get("call", 0) != 1 else np.bool_(use_filled)
+            area_grid, idxcells, weights = cat.intersect(cg, filled=fl)
         except Exception as e:
             ctx.check("intersect.runs", ninside == 0, "intersect|raises", case,
                       lambda: {"exc": repr(e), "cells_inside": ninside})
@@ -217,6 +220,64 @@ def judge_intersect(ctx, case, g, cat, cg, fine, coarse, cells, filled_cells,
               lambda: detail)
     if nin >= 2:
         ctx.nontrivial(repr(fine), repr(coarse), cells, use_filled)
+    # ---- cutting the grid in two along a column (or row) boundary changes no weight:
+    # a catchment cell goes to exactly one grid cell, also when its centre lies exactly
+    # on the cut (which side takes it is the implementation's convention, but it must be
+    # the same convention for the inner edges of a grid and for its outer edges)
+    def short_dyadic(v):
+        return abs(v) < 2 ** 20 and float(v) * 4096 == int(float(v) * 4096)
+    exact_geo = all(short_dyadic(d[k_]) for d in (fine, coarse)
+                    for k_ in ("csz", "xll", "yll"))
+    # judged when the arithmetic of the kernel is exact for this geometry (short dyadic
+    # numbers: a centre on a cut is on it exactly), or when no centre is anywhere near
+    # an edge; otherwise rounding legitimately decides the side
+    if case.get("call", 0) == 0 and (exact_geo or mind > 1e-6):
+        split_consistency(ctx, g, cat, coarse, use_filled,
+                          dict(zip(idxcells, weights.tolist())), case)
+
+
+def split_consistency(ctx, g, cat, coarse, use_filled, whole, case):
+    nr, nc, csz = coarse["nrows"], coarse["ncols"], coarse["csz"]
+    xll, yll = coarse["xll"], coarse["yll"]
+    for axis in ("cols", "rows"):
+        n = nc if axis == "cols" else nr
+        if n < 2:
+            continue
+        k = n // 2
+        org = xll if axis == "cols" else yll
+        # rows are numbered from the top: the lower part holds the last rows
+        cut = org + (k if axis == "cols" else (n - k)) * csz
+        if Fraction(cut) != Fraction(org) + (k if axis == "cols" else (n - k)) * Fraction(csz):
+            continue                      # the cut is not exactly representable
+        if axis == "cols":
+            parts = [(g.Grid("p1", k, nr, cellsize=csz, xllcorner=xll, yllcorner=yll),
+                      lambda r, c: r * k + c if c < k else None),
+                     (g.Grid("p2", nc - k, nr, cellsize=csz, xllcorner=cut, yllcorner=yll),
+                      lambda r, c: r * (nc - k) + (c - k) if c >= k else None)]
+        else:
+            parts = [(g.Grid("p1", nc, k, cellsize=csz, xllcorner=xll, yllcorner=cut),
+                      lambda r, c: r * nc + c if r < k else None),
+                     (g.Grid("p2", nc, n - k, cellsize=csz, xllcorner=xll, yllcorner=yll),
+                      lambda r, c: (r - k) * nc + c if r >= k else None)]
+        got = {}
+        for pg, fmap in parts:
+            try:
+                with warnings.catch_warnings():
+                    warnings.simplefilter("ignore")
+                    _, ic, w_ = cat.intersect(pg, filled=use_filled)
+                part = dict(zip([int(v) for v in ic], np.asarray(w_, float).tolist()))
+            except Exception:
+                part = {}
+            for cell in range(nr * nc):
+                r, c = divmod(cell, nc)
+                pc = fmap(r, c)
+                if pc is not None and pc in part:
+                    got[cell] = got.get(cell, 0.0) + part[pc]
+        ctx.tag("intersect:split-grid")
+        ctx.api("intersect", 2)
+        ctx.check("intersect.split-consistent", got == whole,
+                  f"intersect|weights-change-when-grid-is-cut-along-{axis}", case,
+                  lambda: {"whole": whole, "two_parts": got, "cut_at": cut})
 
 
 def run_voronoi_case(ctx, case):
